@@ -1,5 +1,5 @@
 def run(facts, cg):
-    from . import r_openflags, r_storage, r_pairing, r_err, r_tables, r_wire, r_readers, r_untrusted, r_dictwiring, r_trunc, r_misc, r_chunker, r_readerwiring
+    from . import r_openflags, r_storage, r_pairing, r_err, r_tables, r_wire, r_readers, r_untrusted, r_dictwiring, r_trunc, r_misc, r_chunker, r_readerwiring, r_accept, r_cliprogress
     out = {}
     out['r_openflags'] = r_openflags.run(facts, cg)
     out['r_storage'] = r_storage.run(facts, cg)
@@ -14,6 +14,8 @@ def run(facts, cg):
     out['r_misc'] = r_misc.run(facts, cg)
     out['r_chunker'] = r_chunker.run(facts, cg)
     out['r_readerwiring'] = r_readerwiring.run(facts, cg)
+    out['r_accept'] = r_accept.run(facts, cg)
+    out['r_cliprogress'] = r_cliprogress.run(facts, cg)
     out['r_cliflags'] = r_openflags.run_cliflags(facts, cg)
     out['r_err_fatal'] = r_err.run_fatal(facts, cg)
     return out
